@@ -159,7 +159,6 @@ pub fn gen_args(r: &mut Rng, name: &str) -> Vec<V> {
         "at" => { let h = gen_hay(r); vec![h, gen_idx(r)] }
         "copy" => { let h = gen_hay(r); vec![h, gen_idx(r), gen_idx(r)] }
         "insert" => { let h = gen_hay(r); let n = gen_needle(r, &h); vec![h, n, gen_idx(r)] }
-        "contains" | "count" | "find" | "remove" => { let h = gen_hay(r); let n = gen_needle(r, &h); vec![h, n] }
         "replace" => { let h = gen_hay(r); let n = gen_needle(r, &h); if r.chance(1, 3) { vec![h, n] } else { let t = gen_needle(r, &h); vec![h, n, t] } }
         // values that are `==` across kinds (1, '1', true, 1.0, '1.0' …): the case in which a hash-based
         // implementation disagrees with equality
@@ -175,6 +174,7 @@ pub fn gen_args(r: &mut Rng, name: &str) -> Vec<V> {
         "unique" | "count" | "contains" | "find" if r.chance(1, 10) => { let n = 33 + r.usize(60); let strs = r.chance(1, 4);
             let a = V::Array((0..n).map(|i| if strs { s(*r.pick(&["a", "b", "A", "", "0", "-0", "ab"])) } else { match r.below(8) { 0 => num(0.0), 1 => num(-0.0), 2 => num(f64::NAN), 3 => num(f64::from_bits(0x7ff8000000000001)), _ => num((i % 17) as f64) } }).collect());
             match name { "unique" => vec![a], _ => vec![a, if strs { s("0") } else { num(*r.pick(&[0.0, -0.0, f64::NAN, 3.0])) }] } }
+        "contains" | "count" | "find" | "remove" => { let h = gen_hay(r); let n = gen_needle(r, &h); vec![h, n] }
         "unique" if r.chance(3, 4) => { let n = 2 + r.below(7); vec![V::Array((0..n).map(|_| match r.below(9) { 0 => num(1.0), 1 => s("1"), 2 => V::Boolean(true), 3 => s("1.0"), 4 => num(0.0), 5 => s("0"), 6 => V::Boolean(false), 7 => s(""), _ => num(-0.0) }).collect())] }
         "length" | "reverse" | "unique" | "empty" | "bool" | "str" => vec![if r.chance(2, 3) { gen_hay(r) } else { gen_val(r, 2) }],
         "all" | "any" => { let n = r.below(5); let v: Vec<V> = (0..n).map(|_| match r.below(5) { 0 => V::Boolean(true), 1 => V::Boolean(false), 2 => num(1.0), 3 => s("true"), _ => gen_small_val(r) }).collect(); if r.chance(1, 2) { vec![V::Array(v)] } else { v } }
